@@ -45,7 +45,7 @@ def _extra(c, io, build):
     return []
 
 
-mach.install(globals(), "C03", ("EvStep", "EvDone"), ("C03:",), PROFILES, n_quick=300, n_thorough=5000,
+mach.install(globals(), "C03", ("EvStep", "EvDone"), ("C03:",), PROFILES, n_quick=300, n_thorough=25000,
              nontrivial=_nontrivial, hang_clause="C03:termination", level="proof", extra_monitors=_extra)
 
 _gen0 = gen_cases
